@@ -6,7 +6,8 @@
         → `bad <kind> <n> ; <thread>*` a shortest schedule into a bad / deadlocked state
         → `err <why>`
     c19replay <gen|ref> <scenario> ; <thread>*
-        → `<status> | <thread.call.Exc>* | D<ids> I<ids> T<ids> | <overlap 0/1> | <faults>`
+        → `<status> | <thread.call.Exc>* | D<ids> I<ids> T<ids> | <overlap 0/1> | <faults>
+           | <free/held> <excl/noexcl> | <micro steps> | <thread.call of the discards that removed>`
     c19code <gen|ref> <scenario>      → length of each thread's flat code
     c19conf <gen|ref|old> <scenario>  → `<conformant 0/1> <disciplined 0/1>`
 
@@ -23,7 +24,7 @@ namespace Driver.C19
 
 def methodOfName : String → Option Method
   | "contains" => some .contains | "getItem" => some .getItem | "setItem" => some .setItem
-  | "delItem" => some .delItem | "len" => some .len | "documents" => some .documents
+  | "delItem" => some .delItem | "discard" => some .discard | "len" => some .len | "documents" => some .documents
   | "isEmpty" => some .isEmpty | "expireDocuments" => some .expireDocuments
   | "removeExpired" => some .removeExpired | "createIndex" => some .createIndex
   | "createIndexTtl" => some .createIndexTtl | "dropIndex" => some .dropIndex
@@ -136,7 +137,8 @@ def handle (ts : List String) : Option (List String) :=
         showIds "I" tr.s.sh.idx, showIds "T" tr.s.sh.ttl, "|", if tr.overlap then "1" else "0", "|"]
         ++ faults ++ ["|", if locksFree tr.s then "free" else "held",
                        if tr.excl then "excl" else "noexcl", "|"]
-        ++ tr.micro.toList.map toString)
+        ++ tr.micro.toList.map toString
+        ++ ["|"] ++ tr.removed.toList.map fun (t, c) => s!"{t}.{c}")
   | ["c19proto", which, n, limit] =>
     let (P, _) := pick which
     let r := pexplore P n.toNat! limit.toNat!
